@@ -119,10 +119,11 @@ def git_head(repo):
 
 
 def write_replay(prop, v, case, seed, digest, tag=""):
-    os.makedirs(os.path.join(HERE, "replays"), exist_ok=True)
+    rdir = os.environ.get("VERIF_REPLAY_DIR", os.path.join(HERE, "replays"))
+    os.makedirs(rdir, exist_ok=True)
     head, dirty = git_head(REPO)
     cls = v["class"].replace("/", "_").replace(":", "-").replace("@", "-")[:80]
-    path = os.path.join(HERE, "replays", f"{prop}-{cls}-{seed}-{case.get('_run', {}).get('index', 0)}{tag}.json")
+    path = os.path.join(rdir, f"{prop}-{cls}-{seed}-{case.get('_run', {}).get('index', 0)}{tag}.json")
     with open(path, "w") as f:
         json.dump(
             {
